@@ -244,6 +244,10 @@ def make_evo(arr, mode="se3", stamped=True, meta=None, flavour="array64"):
                     poses[k] = poses[k - 1]
         if flavour == "stacked":
             poses = np.stack(poses)  # one N x 4 x 4 array instead of a list of matrices
+        if flavour == "readonly":
+            # matrices in read-only memory (numpy.load(mmap_mode="r"), frombuffer, broadcast_to)
+            for P in poses:
+                P.setflags(write=False)
         if stamped:
             ts = np.array(arr["t"], dtype=float)
             return PoseTrajectory3D(poses_se3=poses, timestamps=ts.tolist() if flavour == "lists" else ts,
@@ -259,6 +263,10 @@ def make_evo(arr, mode="se3", stamped=True, meta=None, flavour="array64"):
     elif flavour == "int" and all_integer(p):
         # whole-number positions given as Python ints or as an integer ndarray
         p = p.astype(np.int64).tolist() if len(p) % 2 else p.astype(np.int64)
+    elif flavour == "readonly":
+        for a in (p, q, t):
+            if a is not None:
+                a.setflags(write=False)
     if stamped:
         return PoseTrajectory3D(positions_xyz=p, orientations_quat_wxyz=q, timestamps=t, meta=meta)
     return PosePath3D(positions_xyz=p, orientations_quat_wxyz=q, meta=meta)
